@@ -246,6 +246,13 @@ func oracleCLI(c CLICase) error {
 		if strings.TrimSpace(f.Content) == "" {
 			return nil
 		}
+		if c.Mode == "inline" && !startsWithStatementKeyword(f.Content) {
+			// not the documented inline form: the command takes the argument for the name of a file, which does not exist
+			if r.code == 0 {
+				return fmt.Errorf("gosqlx %s %s %q exits 0 although the argument is neither SQL in the documented inline form nor an existing file", c.Cmd, strings.Join(c.Flags, " "), clip(f.Content))
+			}
+			return nil
+		}
 		ok := accepts(f.Content, flagValue(c.Flags, "--dialect"), has(c.Flags, "--strict"))
 		if c.Cmd == "lint" {
 			// the verdict on a text does not depend on how the text is handed over: the same flags with the
